@@ -55,14 +55,21 @@ impl<I: SelectSyscall> SelectSyscall for NioSelectSyscall<I> {
         errorfds: *mut fd_set,
         timeout: *mut timeval,
     ) -> c_int {
+        // timeout in milliseconds (rounded up), `c_uint::MAX` means wait forever
         let mut t = if timeout.is_null() {
             c_uint::MAX
         } else {
-            unsafe {
-                c_uint::try_from((*timeout).tv_sec).expect("overflow")
-                    .saturating_mul(1_000_000)
-                    .saturating_add(c_uint::try_from((*timeout).tv_usec).expect("overflow"))
-            }
+            let (tv_sec, tv_usec) = unsafe { ((*timeout).tv_sec, (*timeout).tv_usec) };
+            let (Ok(sec), Ok(usec)) = (u64::try_from(tv_sec), u64::try_from(tv_usec)) else {
+                crate::syscall::set_errno(libc::EINVAL);
+                return -1;
+            };
+            c_uint::try_from(
+                sec.saturating_mul(1_000)
+                    .saturating_add(usec.div_ceil(1_000))
+                    .min(u64::from(c_uint::MAX - 1)),
+            )
+            .unwrap_or(c_uint::MAX - 1)
         };
         let mut o = timeval {
             tv_sec: 0,
